@@ -142,6 +142,8 @@ def menu(M, seen):
                 # group-wise modify: a result that fits its group is stored, one that does not fit is rejected
                 add({"op": "grouped_modify", "by": names[0], "name": fresh(M, "gm"), "extra": 0})
                 add({"op": "grouped_modify", "by": names[0], "name": fresh(M, "gm"), "extra": 1})
+                # a plain int for one-row groups, a float otherwise: the column must be able to hold both
+                add({"op": "grouped_modify", "by": names[0], "name": fresh(M, "gm"), "extra": 0, "mixed": True})
         add({"op": "rbind_self"})
         add({"op": "rbind_partner"})
         # the very same object as receiver and argument
@@ -357,6 +359,8 @@ def apply_real(d, M, op):
     if o == "grouped_modify":
         extra = op["extra"]
         g = d.copy().group_by(op["by"])
+        if op.get("mixed"):
+            return g.modify(**{op["name"]: (lambda x: x.nrow / 4 if x.nrow > 1 else 0)}), []
         return g.modify(**{op["name"]: (lambda x: list(range(x.nrow + extra)))}), []
     if o == "rbind_self":
         return d.rbind(d), []
@@ -472,7 +476,14 @@ def apply_model(M, op):
     if o == "grouped_modify":
         if op["extra"]:
             raise Rejected("a group-wise result that does not fit its group")
-        return None, {"adopt": True}  # the values are C04's subject; here: the frame stays rectangular
+        # every row gets what the function returned for its group (rows with equal keys, missing == missing, in frame order)
+        from mc.ref.table import key_eq
+        key = M.get(op["by"])
+        vals = []
+        for i in range(M.nrow):
+            members = [j for j in range(M.nrow) if key_eq(key[j], key[i])]
+            vals.append((len(members) / 4 if len(members) > 1 else 0) if op.get("mixed") else members.index(i))
+        return M.modify(op["name"], vals), flags
     if o == "rbind_self":
         return M.rbind([M]), flags
     if o == "cbind_self":
